@@ -415,25 +415,28 @@ class Program:
 # ----------------------------------------------------------------------------- state
 
 class State:
-    __slots__ = ('heap', 'pc', 'pcids')
+    __slots__ = ('heap', 'pc', 'pcids', 'isdead')
 
-    def __init__(self, heap=None, pc=(), pcids=()):
+    def __init__(self, heap=None, pc=(), pcids=(), isdead=False):
         self.heap = heap if heap is not None else {}
         self.pc = pc
         self.pcids = pcids
+        self.isdead = isdead
 
     def fork(self):
-        return State(dict(self.heap), self.pc, self.pcids)
+        return State(dict(self.heap), self.pc, self.pcids, self.isdead)
 
     def assume(self, c):
         if c is True:
             return
         c = tobool(c)
+        if z3.is_false(c):
+            self.isdead = True
         self.pc = self.pc + (c,)
         self.pcids = self.pcids + (c.get_id(),)
 
     def dead(self):
-        return any(z3.is_false(c) for c in self.pc)
+        return self.isdead
 
 
 class Obligation:
@@ -875,6 +878,44 @@ class Executor:
         self.feas_cache[key] = (r, cb, st.pc)
         return r
 
+    def concretize(self, st, v):
+        """if the path condition determines v uniquely, return the concrete value"""
+        if not is_sym(v):
+            return v
+        if z3.is_fp(v):
+            return v
+        sv = self.feas_solver
+        sv.push()
+        try:
+            for x in st.pc:
+                sv.add(x)
+            self.stats['feas'] += 1
+            if sv.check() != z3.sat:
+                return v
+            m = sv.model()
+            v0 = m.eval(v, model_completion=True)
+            sv.add(v != v0)
+            self.stats['feas'] += 1
+            if sv.check() != z3.unsat:
+                return v
+        finally:
+            sv.pop()
+        return lit(v0)
+
+    def settle_value(self, st, v):
+        if isinstance(v, tuple):
+            return tuple(self.settle_value(st, x) for x in v)
+        if isinstance(v, Union):
+            alts = [(g, a) for g, a in v.alts if g is True or self.feasible(st, g)]
+            if len(alts) == 1:
+                return alts[0][1]
+            return Union(alts) if alts else v
+        if isinstance(v, SliceV):
+            return SliceV(v.ptr, self.concretize(st, v.off), self.concretize(st, v.len), self.concretize(st, v.cap))
+        if is_sym(v) and not z3.is_array(v):
+            return self.concretize(st, v)
+        return v
+
     # ------------------------------------------------------------ operands
     def operand(self, o, env):
         if o is None:
@@ -1264,6 +1305,9 @@ class Executor:
             at = self.p.T(xt['elem'])
             n = at['len']
             self.check_index_g(st, idx, n, itype, pos, g)
+            if is_sym(idx) and 16 <= n <= 4096:
+                # a symbolic index into a table (dispatch tables): fold it if the path condition determines it
+                idx = self.concretize(st, idx)
             return Ptr(x.obj, x.path + (self.norm_index(idx, n),))
         # slice
         self.check_index_g(st, idx, x.len, itype, pos, g)
@@ -1901,7 +1945,7 @@ def install_default_intrinsics(ex):
 
     def iname(args):
         if not isinstance(args[1], int):
-            raise Inconclusive('indexed intrinsic needs a concrete index')
+            raise Inconclusive('indexed intrinsic %s needs a concrete index, got %s' % (args[0], str(args[1])[:200]))
         return const_name(args[0]) + str(symgo_signed64(args[1]))
     I['v:vU8i'] = lambda ex, st, args, pos: (ex.fresh(iname(args), 'bv', 8), st)
     I['v:vU16i'] = lambda ex, st, args, pos: (ex.fresh(iname(args), 'bv', 16), st)
@@ -1966,6 +2010,21 @@ def install_default_intrinsics(ex):
 
     def noop(ex, st, args, pos):
         return None, st
+
+    def vconc(ex, st, args, pos):
+        return ex.concretize(st, args[0]), st
+    for n in ('vConc8', 'vConc16', 'vConcInt', 'vConcBool'):
+        I['v:' + n] = vconc
+
+    def vsettle(ex, st, args, pos):
+        target = args[0]
+        if not isinstance(target, Iface) or ex.p.T(target.typ)['k'] != 'ptr':
+            raise Inconclusive('vSettle needs a pointer')
+        old = ex.load(st, target.val, pos)
+        new = ex.settle_value(st, old)
+        ex.store(st, target.val, new, pos)
+        return None, st
+    I['v:vSettle'] = vsettle
 
     def opaque(what):
         def f(ex, st, args, pos):
